@@ -594,6 +594,20 @@ def judge_symmetry(scene, LV, LH, tol=1e-6):
         rb = sorted((br["kind"], br["gene"] if br["gene"] is not None else -1, tuple(round(x, 5) for x in br["rect"])) for br in b["branches"])
         if len(ra) != len(rb) or any(x[0] != y[0] or x[1] != y[1] or not close(x[2], y[2]) for x, y in zip(ra, rb)):
             fails.append(("symmetry", f"species {s}: branch rectangles are not mirror images"))
+        else:
+            # the four connection points of every branch (towards the parent, the two children, the child side) are part
+            # of the layout too: role by role, the horizontal ones are the transposed vertical ones
+            key = lambda br, t: (br["kind"], br["gene"] if br["gene"] is not None else -1, tuple(round(x, 5) for x in (t(br["rect"]))))  # noqa: E731
+            av = {key(br, tr): br["anchors4"] for br in a["branches"]}
+            ah = {key(br, lambda r: r): br["anchors4"] for br in b["branches"]}
+            for kk, pts in av.items():
+                qts = ah.get(kk)
+                if qts is None:
+                    continue
+                for role, pv, ph in zip(("parent", "left", "right", "child"), pts, qts):
+                    if not close((pv[1], pv[0]), ph):
+                        fails.append(("symmetry", f"species {s}: the '{role}' connection point of the {kk[0]} branch of object node {kk[1]} is {pv} (vertical) vs {ph} (horizontal): not mirror images"))
+                        break
         for k, p in a["anchors"].items():
             if k in scene.gid:
                 q = b["anchors"].get(k)
